@@ -73,7 +73,7 @@ WideDot(ix, st, i) == IF i > Len(ix) THEN <<>> ELSE BigAdd(MulSmall(st[i], ix[i]
 TWide == /\ l <= Len(TraceLog) /\ Ev.e = "wide"
          /\ LET st == WideStrides(Ev.shape, 1)
                 exp == [strides |-> st, prod |-> MulSmall(st[1], Ev.shape[1])]
-                good == /\ Ev.strides = st /\ Ev.prod = exp.prod
+                good == /\ Ev.strides = st /\ ("prod" \in DOMAIN Ev => Ev.prod = exp.prod)   \* (32-bit fixed containers: the product does not fit their element type and is not logged)
                         /\ InBox(Ev.idx, Ev.shape) /\ WideDot(Ev.idx, st, 1) = Ev.k
                         /\ Ev.idx2 = Ev.idx /\ Ev.off = Ev.k
             IN bad' = IF good THEN bad ELSE Note("wide", exp)
